@@ -311,7 +311,7 @@ def _main_loop(ctx: Ctx):
     return sub, fn, inner, outer
 
 
-@rule('SUBMIT-FROM-READY', ['C02', 'C03', 'C04'])
+@rule('SUBMIT-FROM-READY', ['C02', 'C03', 'C04', 'C05'])
 def submit_from_ready(ctx: Ctx):
     """Every submitted task is an element of the list get_ready_tasks() returned in the same
     iteration of the main loop."""
@@ -673,7 +673,7 @@ def instances(ctx: Ctx):
                  '' if okc else f'marking loop runs when {show(c3)}, expected {show(need)}')
 
 
-@rule('C03.NO-EXPAND-CACHED', ['C03', 'C08', 'C01'])
+@rule('C03.NO-EXPAND-CACHED', ['C03', 'C08', 'C01', 'C02'])
 def no_expand_cached(ctx: Ctx):
     """Dependencies are discovered exactly for tasks that will not be served from cache, and the
     plan-time predicate is the coordinator's use_cache (bust_cache honoured)."""
